@@ -44,7 +44,9 @@ PAIR_USES = [[a, b] for a in ('brace', 'tok', 'opt', 'omit', 'nested') for b in 
 ROUTES = ['doc', 'defs', 'ltinput']
 # option sets under which the three routes are compared: default; Latin-1 input encoding with a non-ASCII character in the
 # definitions; --nosp together with the preamble line the README prescribes (\newcommand{\LTinput}[1]{} has to be ignored)
-VARIANTS = ['std', 'latin1', 'nosp']
+VARIANTS = ['std', 'latin1', 'nosp', 'pre']
+# 'pre': text with a footnote stands in front of the definitions (of the \LTinput line); only the route comparison is judged
+PRE = 'Wpaq\\footnote{Wpbq Wpcq} Wpdq\n'
 
 
 def defsrc(definer, name, body, n, default):
@@ -359,6 +361,7 @@ class C09:
         elif variant == 'nosp':
             extra = {'nosp': True}
             lt_pre = '\\newcommand{\\LTinput}[1]{}\n'
+        pre = PRE if variant == 'pre' else ''
         tag = '%s:%s:%s' % (BODIES[bi][0], definer, '+'.join(USES[ui] if ui >= 0 else PAIR_USES[-ui - 1]))
         with open('ymcdefs.tex', 'w', encoding=enc) as f:
             f.write(dtxt)
@@ -369,17 +372,19 @@ class C09:
                 prefix, opts = '', dict({'pack': '*', 'lang': 'en', 'defs': dtxt}, **extra)
             else:
                 prefix, opts = lt_pre + '\\LTinput{ymcdefs.tex}\n', dict({'pack': '*', 'lang': 'en'}, **extra)
-            src = prefix + body
+            src = pre + prefix + body
             o = impl.run_filter(src, opts)
             if o.kind != 'ok':
                 viol.append({'clause': 'returns', 'sig': 'C09:no-result:%s' % route, 'detail': {'source': src, 'info': o.info}})
                 continue
             plain, nums = o.result
             nums = list(nums)
-            results[route] = (plain, [p - len(prefix) for p in nums])
+            results[route] = (plain, [p if p <= len(pre) else p - len(prefix) for p in nums])
             det = {'route': route, 'source': src, 'plain': plain, 'definitions': dtxt}
             if o.stderr:
                 viol.append({'clause': 'no diagnostic for well-formed definitions', 'sig': 'C09:stderr:' + tag, 'detail': dict(det, stderr=o.stderr[:200])})
+                continue
+            if pre:
                 continue
             r = cat.Rendered()
             r.flows = flows
